@@ -209,6 +209,30 @@ theorem phase1_bounced (m : Msg) (o : Outcome) (x : Rcpt) (r : ReplyId) (h : (x,
   | mapping res => exact part res h
   | sequence l => exact part _ h
 
+theorem bouncesIf_count (pairs : List (Rcpt × ReplyId)) (t : Bool) (x : Rcpt) :
+    ((bouncesIf true pairs t).flatMap (·.rcpts)).count x = (pairs.map Prod.fst).count x := by
+  have e : (bouncesIf true pairs t).flatMap (·.rcpts) = groupRcpts (splitByReply pairs []) := by
+    simp only [bouncesIf, if_true, groupRcpts, List.flatMap_map]
+  rw [e, count_splitByReply]; simp
+
+theorem phase1_bcount (m : Msg) (o : Outcome) (x : Rcpt) :
+    ((phase1 true m o).bounces.flatMap (·.rcpts)).count x = ((phase1 true m o).failed.map Prod.fst).count x := by
+  have part : ∀ res, ((partial1 true m res).bounces.flatMap (·.rcpts)).count x = ((partial1 true m res).failed.map Prod.fst).count x := by
+    intro res; rw [partial1_unf]; exact bouncesIf_count _ _ _
+  cases o with
+  | success => simp [phase1]
+  | permanent r => simp [phase1, List.map_map, Function.comp_def]
+  | transient r => simp [phase1]
+  | other r => simp [phase1]
+  | mapping res => exact part res
+  | sequence l => exact part _
+
+theorem giveUp_bcount (rcpts : List Rcpt) (pd : Pend) (x : Rcpt) :
+    ((giveUp true rcpts pd).2.flatMap (·.rcpts)).count x = ((giveUp true rcpts pd).1.map Prod.fst).count x := by
+  cases pd with
+  | whole r => simp [giveUp, List.map_map, Function.comp_def]
+  | part pairs idxs => exact bouncesIf_count pairs true x
+
 theorem phase1_quiet (m : Msg) (o : Outcome) : (phase1 false m o).bounces = [] := by
   cases o <;> simp [phase1, partial1, bouncesIf]
 
@@ -311,10 +335,12 @@ structure L (fb : Bool) (v : View) (q : State) : Prop where
   fresh : ∀ id ∈ v.written, ∃ r, q.orig id = some r ∧ q.msgs id = some ⟨r, 0⟩
   bounced : ∀ id x r, (x, r) ∈ q.failed id → (fb && q.nonNull id) = true → ∃ b ∈ q.bounces id, b.reply = r ∧ x ∈ b.rcpts
   quiet : ∀ id, (fb && q.nonNull id) = false → q.bounces id = []
+  bcount : ∀ id x, (fb && q.nonNull id) = true →
+    ((q.bounces id).flatMap (·.rcpts)).count x = ((q.failed id).map Prod.fst).count x
 
 /-- The scheduler part of the state is not mentioned by `L`. -/
 theorem L_s {fb : Bool} {v : View} {q : State} (s' : Sched.State) (h : L fb v q) : L fb v { q with s := s' } :=
-  ⟨h.stored, h.orig, h.nodup, h.flightIff, h.flightMsg, h.pendIff, h.pendOk, h.ledger, h.fresh, h.bounced, h.quiet⟩
+  ⟨h.stored, h.orig, h.nodup, h.flightIff, h.flightMsg, h.pendIff, h.pendOk, h.ledger, h.fresh, h.bounced, h.quiet, h.bcount⟩
 
 @[simp] theorem upd_same {α : Type} (f : Nat → α) (i : Nat) (v : α) : upd f i v i = v := by simp [upd]
 theorem upd_ne {α : Type} (f : Nat → α) {i j : Nat} (v : α) (h : j ≠ i) : upd f i v j = f j := by simp [upd, h]
@@ -356,7 +382,7 @@ theorem L_write {fb : Bool} {v : View} {q : State} (hv : VOk v) (h : L fb v q) (
      fun hx => hid (hv.stored id (Or.inr (Or.inr (Or.inl hx)))), fun hx => hid (hv.stored id (Or.inr (Or.inr (Or.inr hx))))⟩
   have hpn := pend_none_of h hnot.2.1 hnot.2.2.1
   have hfn := flight_none_of h hnot.1
-  refine ⟨?_, ?_, ?_, ?_, ?_, ?_, ?_, ?_, ?_, ?_, ?_⟩
+  refine ⟨?_, ?_, ?_, ?_, ?_, ?_, ?_, ?_, ?_, ?_, ?_, ?_⟩
   · intro j
     by_cases hj : j = id
     · subst hj; simp
@@ -402,12 +428,16 @@ theorem L_write {fb : Bool} {v : View} {q : State} (hv : VOk v) (h : L fb v q) (
     by_cases hj : j = id
     · subst hj; simp
     · simp only [upd_ne _ _ hj] at hb ⊢; exact h.quiet j hb
+  · intro j x hb
+    by_cases hj : j = id
+    · subst hj; simp
+    · simp only [upd_ne _ _ hj] at hb ⊢; exact h.bcount j x hb
 
 theorem L_handoff {fb : Bool} {v : View} {q : State} (h : L fb v q) (id : Nat) (m : Msg) (hm : q.msgs id = some m)
     (w' : List Nat) (hw : ∀ j, j ∈ w' → j ∈ v.written) (e : Nat × List Rcpt × Nat) :
     L fb { v with inflight := id :: v.inflight, written := w' }
       { q with flight := upd q.flight id (some m), handed := e :: q.handed } := by
-  refine ⟨h.stored, h.orig, h.nodup, ?_, ?_, h.pendIff, h.pendOk, ?_, ?_, h.bounced, h.quiet⟩
+  refine ⟨h.stored, h.orig, h.nodup, ?_, ?_, h.pendIff, h.pendOk, ?_, ?_, h.bounced, h.quiet, h.bcount⟩
   · intro j
     by_cases hj : j = id
     · subst hj; simp
@@ -434,7 +464,7 @@ theorem L_done_final {fb : Bool} {v : View} {q : State} (hv : VOk v) (h : L fb v
   obtain ⟨hn1, hn2, hn3⟩ := (hv.excl id).1 hin
   have hpn := pend_none_of h hn1 hn2
   have hmsg := h.flightMsg id m hf
-  refine ⟨h.stored, h.orig, h.nodup, ?_, ?_, ?_, ?_, ?_, h.fresh, ?_, ?_⟩
+  refine ⟨h.stored, h.orig, h.nodup, ?_, ?_, ?_, ?_, ?_, h.fresh, ?_, ?_, ?_⟩
   · intro j
     by_cases hj : j = id
     · subst hj; simp [mem_without]
@@ -480,6 +510,14 @@ theorem L_done_final {fb : Bool} {v : View} {q : State} (hv : VOk v) (h : L fb v
       simp only [upd_same, hb, phase1_quiet, List.append_nil]
       exact h.quiet j hb
     · simp only [upd_ne _ _ hj]; exact h.quiet j hb
+  · intro j x hb
+    by_cases hj : j = id
+    · subst hj
+      have h0 := h.bcount j x hb
+      have h1 := phase1_bcount m o x
+      simp only [upd_same, hb, List.flatMap_append, List.count_append, List.map_append]
+      omega
+    · simp only [upd_ne _ _ hj]; exact h.bcount j x hb
 
 theorem L_done_retry {fb : Bool} {v : View} {q : State} (hv : VOk v) (h : L fb v q) (id : Nat) (m : Msg) (o : Outcome) (pd : Pend)
     (hf : q.flight id = some m) (hc : CompleteOutcome m o) (hp : (phase1 (fb && q.nonNull id) m o).pend = some pd) :
@@ -492,7 +530,7 @@ theorem L_done_retry {fb : Bool} {v : View} {q : State} (hv : VOk v) (h : L fb v
   obtain ⟨hn1, hn2, hn3⟩ := (hv.excl id).1 hin
   have hpn := pend_none_of h hn1 hn2
   have hmsg := h.flightMsg id m hf
-  refine ⟨h.stored, h.orig, h.nodup, ?_, ?_, ?_, ?_, ?_, h.fresh, ?_, ?_⟩
+  refine ⟨h.stored, h.orig, h.nodup, ?_, ?_, ?_, ?_, ?_, h.fresh, ?_, ?_, ?_⟩
   · intro j
     by_cases hj : j = id
     · subst hj; simp [mem_without]
@@ -541,6 +579,14 @@ theorem L_done_retry {fb : Bool} {v : View} {q : State} (hv : VOk v) (h : L fb v
       simp only [upd_same, hb, phase1_quiet, List.append_nil]
       exact h.quiet j hb
     · simp only [upd_ne _ _ hj]; exact h.quiet j hb
+  · intro j x hb
+    by_cases hj : j = id
+    · subst hj
+      have h0 := h.bcount j x hb
+      have h1 := phase1_bcount m o x
+      simp only [upd_same, hb, List.flatMap_append, List.count_append, List.map_append]
+      omega
+    · simp only [upd_ne _ _ hj]; exact h.bcount j x hb
 
 theorem L_retry_none {fb : Bool} {v : View} {q : State} (hv : VOk v) (h : L fb v q) (id : Nat) (pd : Pend) (m : Msg)
     (hin : id ∈ v.retry) (hpd : q.pend id = some pd) (hm : q.msgs id = some m) :
@@ -551,7 +597,7 @@ theorem L_retry_none {fb : Bool} {v : View} {q : State} (hv : VOk v) (h : L fb v
   obtain ⟨hn2, hn3⟩ := (hv.excl id).2.1 hin
   have hnf : id ∉ v.inflight := fun hx => ((hv.excl id).1 hx).1 hin
   have hfn := flight_none_of h hnf
-  refine ⟨?_, h.orig, h.nodup, h.flightIff, ?_, ?_, ?_, ?_, ?_, ?_, ?_⟩
+  refine ⟨?_, h.orig, h.nodup, h.flightIff, ?_, ?_, ?_, ?_, ?_, ?_, ?_, ?_⟩
   · intro j
     by_cases hj : j = id
     · subst hj; simpa using (h.stored j).mp (isSome_of_eq hm)
@@ -599,6 +645,14 @@ theorem L_retry_none {fb : Bool} {v : View} {q : State} (hv : VOk v) (h : L fb v
       simp only [upd_same, hb, giveUp_quiet, List.append_nil]
       exact h.quiet j hb
     · simp only [upd_ne _ _ hj]; exact h.quiet j hb
+  · intro j x hb
+    by_cases hj : j = id
+    · subst hj
+      have h0 := h.bcount j x hb
+      have h1 := giveUp_bcount m.rcpts pd x
+      simp only [upd_same, hb, List.flatMap_append, List.count_append, List.map_append]
+      omega
+    · simp only [upd_ne _ _ hj]; exact h.bcount j x hb
 
 theorem L_retry_some {fb : Bool} {v : View} {q : State} (hv : VOk v) (h : L fb v q) (id : Nat) (pd : Pend) (m : Msg)
     (hin : id ∈ v.retry) (hpd : q.pend id = some pd) (hm : q.msgs id = some m) :
@@ -607,7 +661,7 @@ theorem L_retry_some {fb : Bool} {v : View} {q : State} (hv : VOk v) (h : L fb v
   obtain ⟨hn2, hn3⟩ := (hv.excl id).2.1 hin
   have hnf : id ∉ v.inflight := fun hx => ((hv.excl id).1 hx).1 hin
   have hfn := flight_none_of h hnf
-  refine ⟨?_, h.orig, h.nodup, h.flightIff, ?_, ?_, ?_, ?_, ?_, h.bounced, h.quiet⟩
+  refine ⟨?_, h.orig, h.nodup, h.flightIff, ?_, ?_, ?_, ?_, ?_, h.bounced, h.quiet, h.bcount⟩
   · intro j
     by_cases hj : j = id
     · subst hj; simpa using (h.stored j).mp (isSome_of_eq hm)
@@ -648,7 +702,7 @@ theorem L_requeue {fb : Bool} {v : View} {q : State} (hv : VOk v) (h : L fb v q)
   have hn1 : id ∉ v.retry := fun hx => ((hv.excl id).2.1 hx).1 hin
   have hnf : id ∉ v.inflight := fun hx => ((hv.excl id).1 hx).2.1 hin
   have hfn := flight_none_of h hnf
-  refine ⟨?_, h.orig, h.nodup, h.flightIff, ?_, ?_, ?_, ?_, ?_, h.bounced, h.quiet⟩
+  refine ⟨?_, h.orig, h.nodup, h.flightIff, ?_, ?_, ?_, ?_, ?_, h.bounced, h.quiet, h.bcount⟩
   · intro j
     by_cases hj : j = id
     · subst hj; simpa using (h.stored j).mp (isSome_of_eq hm)
@@ -688,7 +742,7 @@ theorem L_remove {fb : Bool} {v : View} {q : State} (hv : VOk v) (h : L fb v q) 
   have hnf : id ∉ v.inflight := fun hx => ((hv.excl id).1 hx).2.2 hin
   have hfn := flight_none_of h hnf
   have hpn := pend_none_of h hn1 hn2
-  refine ⟨?_, ?_, h.nodup, h.flightIff, ?_, h.pendIff, ?_, ?_, ?_, h.bounced, h.quiet⟩
+  refine ⟨?_, ?_, h.nodup, h.flightIff, ?_, h.pendIff, ?_, ?_, ?_, h.bounced, h.quiet, h.bcount⟩
   · intro j
     by_cases hj : j = id
     · subst hj; simp [hids]
@@ -1031,7 +1085,8 @@ theorem inv_start (fb : Bool) (pre : List (Nat × Nat)) (rc : Nat → List Rcpt)
       · simp [h] at hr'
     fresh := by intro id hid; simp [start, view] at hid
     bounced := by intro id x r hx; simp [start] at hx
-    quiet := by intro id _; rfl }
+    quiet := by intro id _; rfl
+    bcount := by intro id x _; rfl }
 
 theorem reach_inv {fb : Bool} {pre : List (Nat × Nat)} {rc : Nat → List Rcpt} {nn : Nat → Bool}
     (hpre : (pre.map (·.1)).Nodup) (hrc : ∀ id ∈ pre.map (·.1), (rc id).Nodup) {q : State}
